@@ -3,6 +3,7 @@ from analysis.runner import rule
 from analysis.facts import AnchorError
 from analysis import terms as T
 
+THOROUGH_CONFIGS = ['release', 'nobmi2']
 LEVEL = "proof"
 EXHAUSTIVE = True
 DECIDED = ("For each of ChessMove -> StableChessMove -> ChessMove, Option<ChessMove> -> StableOptionalChessMove -> Option<ChessMove> (through "
